@@ -121,7 +121,15 @@ func pinnedTrees() []*spec.Spec {
 	neg0 := F(0)
 	neg0.F = -neg0.F
 	negz := spec.FloatV(negZero())
+	// keys and values that collide under common digests, side by side in one object and one list
+	collK, collL := &spec.Spec{K: spec.Obj}, &spec.Spec{K: spec.List}
+	for i, p := range spec.CollisionPairs {
+		collK.Set(p[0], S(p[1]))
+		collK.Set(p[1], I(i))
+		collL.L = append(collL.L, S(p[0]), S(p[1]))
+	}
 	trees := []*spec.Spec{
+		collK, collL, L(collK.Clone(), collL.Clone()),
 		L(F(1), negz, F(100000)),
 		L(F(1e21), F(1e6), F(999999), F(1e-6), F(1e-7), F(5e-324), F(1.7976931348623157e308), F(123456.789)),
 		L(S(string(rune(0xfffd)))),
